@@ -403,6 +403,16 @@ func c16GenStep(t *rapid.T) C16Flag {
 	case 5:
 		ms := rapid.Int64Range(1, 99999).Draw(t, "step-ms")
 		return C16Flag{Set: true, Valid: true, Text: fmt.Sprintf("%d.%03d", ms/1000, ms%1000), Value: ms * 1e6}
+	case 8:
+		// plain seconds with more decimals than a millisecond has: still the number written
+		digits := rapid.IntRange(4, 9).Draw(t, "step-decimals")
+		pow := int64(1)
+		for i := 0; i < digits; i++ {
+			pow *= 10
+		}
+		frac := rapid.Int64Range(1, pow-1).Draw(t, "step-frac")
+		whole := rapid.Int64Range(0, 3).Draw(t, "step-whole")
+		return C16Flag{Set: true, Valid: true, Text: fmt.Sprintf("%d.%0*d", whole, digits, frac), Value: whole*1e9 + frac*(1e9/pow)}
 	case 6:
 		// Not strictly positive, or not a number: must be rejected.
 		text := rapid.SampledFrom([]string{"0", "0.0", "-1", "-0.5", "-15", "nan", "NaN", "inf", "+Inf", "-inf", "0s", "0ms", "0h"}).Draw(t, "step-nonpositive")
